@@ -143,7 +143,7 @@ def main():
                 if msg:
                     rac.fail(key, f"C13 {key}: source of the setter: {msg}\n{src}", scr, "Manager.mk_fun")
     rac.section("containers", "arguments inside nested containers whose enclosing container is read as a whole by another task "
-                "(function of a list / dict), repeated generation after a definition was removed", "4 crafted managers")
+                "(function of a list / dict), repeated generation after a definition was removed", "9 crafted argument sets x fresh / regenerated")
     CR = '''
 import xdeps
 class F:
@@ -151,16 +151,26 @@ class F:
     def total(l): return sum(l)
     @staticmethod
     def pick(dct): return dct["x"] * 2
+    @staticmethod
+    def total2(ll): return sum(sum(x) for x in ll)
+    @staticmethod
+    def deep(g): return g["h"]["k"] * 3 + g["h"]["j"]
 def mk():
-    d = {"l": [1.0, 2.0, 3.0], "n": {"x": 1.5, "y": 0.5}, "s": 0.0, "c": 0.0, "p": 0.0, "q": 0.0}
+    d = {"l": [1.0, 2.0, 3.0], "n": {"x": 1.5, "y": 0.5}, "s": 0.0, "c": 0.0, "p": 0.0, "q": 0.0,
+         # locations two and three containers deep, read through an OUTER container only (whole container / reference-valued index)
+         "m": [[1.0, 2.0], [3.0, 4.0]], "i": 1, "sel": 0.0, "tot": 0.0, "g": {"h": {"k": 1.0, "j": 2.0}}, "w": 0.0, "u": 0.0}
     m = xdeps.Manager(); r = m.ref(d, "d"); f = m.ref(F, "f")
     r["s"] = f.total(r["l"]); r["c"] = r["l"][0] + r["l"][1]; r["p"] = f.pick(r["n"]); r["q"] = r["s"] + r["p"]
+    r["sel"] = r["m"][r["i"]][1] * 10; r["tot"] = f.total2(r["m"]); r["w"] = f.deep(r["g"]); r["u"] = r["w"] + r["sel"]
     return d, m, r
 '''
     env = {}
     exec(CR, env)
     cases = [("list element", ["r['l'][1]"], [10.0]), ("dict member", ["r['n']['x']"], [4.0]),
-             ("both", ["r['l'][0]", "r['n']['x']"], [7.0, -1.0]), ("two list elements", ["r['l'][0]", "r['l'][2]"], [0.5, 0.25])]
+             ("both", ["r['l'][0]", "r['n']['x']"], [7.0, -1.0]), ("two list elements", ["r['l'][0]", "r['l'][2]"], [0.5, 0.25]),
+             ("depth 3, selected row", ["r['m'][1][1]"], [40.0]), ("depth 3, other row", ["r['m'][0][1]"], [-6.0]),
+             ("depth 3 dict", ["r['g']['h']['k']"], [2.5]), ("depth 3 both", ["r['g']['h']['j']", "r['m'][1][0]"], [8.0, 9.0]),
+             ("index and row", ["r['i']", "r['m'][0][1]"], [0, 77.0])]
     for name, args, vals in cases:
         for regen in (False, True):
             d1, m1, r1 = env["mk"]()
